@@ -292,6 +292,71 @@ theorem map_good {f : E → E} {o : Option E} {t e : E} (h : o.map f = some t)
   | none => simp at h
   | some x' => simp at h; subst h; exact hg x' rfl
 
+/-- the member / index / call cases -/
+theorem descLink_sound (rec : E → Prec → Option E)
+    (hrec : ∀ e p t, rec e p = some t → Good H t e)
+    (e1 : E) (p : Prec) (t : E) (h : descLink rec e1 p = some t) : Good H t e1 := by
+  have hmap : ∀ l l', mapO (fun a => rec a opAssign) l = some l' → evalL H l' = evalL H l :=
+    fun l l' hl => mapO_evalL _ l l' hl (fun a a' ha => (hrec _ _ _ ha).1)
+  cases e1 with
+  | dot x name =>
+    simp only [descLink] at h
+    cases hd : dotNumObj x with
+    | some n =>
+      simp only [hd] at h
+      have hx : x = .group (.lit (.num n)) := by
+        unfold dotNumObj at hd
+        split at hd
+        · injection hd with hd; subst hd; rfl
+        · cases hd
+      subst hx
+      split at h
+      · injection h with h; subst h
+        exact ⟨by simp [eval], fun _ => by simp [lref, eval]⟩
+      · cases h
+    | none =>
+      simp only [hd] at h
+      exact map_good h (fun x' hx' =>
+        ⟨by simp [eval, (hrec _ _ _ hx').1], fun _ => by simp [lref, (hrec _ _ _ hx').1]⟩)
+  | index x y =>
+    simp only [descLink] at h
+    cases hx : rec x (if p < opMember then opCall else opMember) with
+    | none => simp [hx] at h
+    | some x' =>
+      simp only [hx] at h
+      have hxe := (hrec _ _ _ hx).1
+      cases hs : strLit? y with
+      | some s0 =>
+        simp only [hs] at h
+        have hy : y = .lit (.str s0) := by
+          unfold strLit? at hs
+          split at hs
+          · injection hs with hs; subst hs; rfl
+          · cases hs
+        subst hy
+        split at h
+        · injection h with h; subst h
+          exact ⟨by simp [eval, hxe], fun _ => by simp [lref, hxe]⟩
+        · exact map_good h (fun y' hy' =>
+            ⟨by simp [eval, hxe, (hrec _ _ _ hy').1], fun _ => by simp [lref, hxe, (hrec _ _ _ hy').1]⟩)
+      | none =>
+        simp only [hs] at h
+        exact map_good h (fun y' hy' =>
+          ⟨by simp [eval, hxe, (hrec _ _ _ hy').1], fun _ => by simp [lref, hxe, (hrec _ _ _ hy').1]⟩)
+  | call f args =>
+    refine ⟨?_, by simp [assignable, E.inner]⟩
+    simp only [descLink] at h
+    cases hf : rec f opCall with
+    | none => simp [hf] at h
+    | some f' =>
+      cases hargs : mapO (fun a => rec a opAssign) args with
+      | none => simp [hf, hargs] at h
+      | some args' =>
+        simp [hf, hargs] at h
+        subst h
+        simp [eval_call, (hrec _ _ _ hf).1, hmap _ _ hargs]
+  | _ => simp [descLink] at h
+
 /-- one step of the traversal keeps the behaviour if the recursive calls and the node rewriter do -/
 theorem descend_sound (hH : HostOk H) (rw rec : E → Prec → Option E)
     (hrw : ∀ e p r, rw e p = some r → eval H r = eval H e)
@@ -433,50 +498,8 @@ theorem descend_sound (hH : HostOk H) (rw rec : E → Prec → Option E)
           | none =>
             simp only [hn] at h
             exact hdef _ h (fun x' hx' => hrec _ _ _ hx')
-  | dot x name =>
-    simp only [descend] at h
-    cases hd : dotNumObj x with
-    | some n =>
-      simp only [hd] at h
-      have hx : x = .group (.lit (.num n)) := by
-        unfold dotNumObj at hd
-        split at hd
-        · injection hd with hd; subst hd; rfl
-        · cases hd
-      subst hx
-      split at h
-      · injection h with h; subst h
-        exact ⟨by simp [eval], fun _ => by simp [lref, eval]⟩
-      · cases h
-    | none =>
-      simp only [hd] at h
-      exact map_good h (fun x' hx' =>
-        ⟨by simp [eval, (hrec _ _ _ hx').1], fun _ => by simp [lref, (hrec _ _ _ hx').1]⟩)
-  | index x y =>
-    simp only [descend] at h
-    cases hx : rec x (if p < opMember then opCall else opMember) with
-    | none => simp [hx] at h
-    | some x' =>
-      simp only [hx] at h
-      have hxe := (hrec _ _ _ hx).1
-      cases hs : strLit? y with
-      | some s0 =>
-        simp only [hs] at h
-        have hy : y = .lit (.str s0) := by
-          unfold strLit? at hs
-          split at hs
-          · injection hs with hs; subst hs; rfl
-          · cases hs
-        subst hy
-        split at h
-        · injection h with h; subst h
-          exact ⟨by simp [eval, hxe], fun _ => by simp [lref, hxe]⟩
-        · exact map_good h (fun y' hy' =>
-            ⟨by simp [eval, hxe, (hrec _ _ _ hy').1], fun _ => by simp [lref, hxe, (hrec _ _ _ hy').1]⟩)
-      | none =>
-        simp only [hs] at h
-        exact map_good h (fun y' hy' =>
-          ⟨by simp [eval, hxe, (hrec _ _ _ hy').1], fun _ => by simp [lref, hxe, (hrec _ _ _ hy').1]⟩)
+  | dot x name => simp only [descend] at h; exact descLink_sound rec hrec _ p t h
+  | index x y => simp only [descend] at h; exact descLink_sound rec hrec _ p t h
   | group x =>
     simp only [descend] at h
     -- the conditional directly inside a group is rewritten first
@@ -492,6 +515,8 @@ theorem descend_sound (hH : HostOk H) (rw rec : E → Prec → Option E)
       simp only [hx] at h
       obtain ⟨he, ht⟩ := hx1 x1 hx
       split at h
+      · cases h
+      split at h
       · have hg := hrec _ _ _ h
         refine ⟨by rw [hg.1, he, eval_group], fun ha => ?_⟩
         rw [assignable_group] at ha
@@ -505,18 +530,18 @@ theorem descend_sound (hH : HostOk H) (rw rec : E → Prec → Option E)
         have := ht ha
         subst this
         simp [lref, hg.2 ha]
-  | call f args =>
-    refine ⟨?_, by simp [assignable, E.inner]⟩
+  | call f args => simp only [descend] at h; exact descLink_sound rec hrec _ p t h
+  | opt a e =>
     simp only [descend] at h
-    cases hf : rec f opCall with
-    | none => simp [hf] at h
-    | some f' =>
-      cases hargs : mapO (fun a => rec a opAssign) args with
-      | none => simp [hf, hargs] at h
-      | some args' =>
-        simp [hf, hargs] at h
-        subst h
-        simp [eval_call, (hrec _ _ _ hf).1, hmap _ _ hargs]
+    split at h
+    · cases h
+    · split at h
+      · cases h
+      · split at h
+        · refine map_good h (fun t' ht' => ?_)
+          have hg := descLink_sound (H := H) rec hrec e p t' ht'
+          exact ⟨by simp [eval_opt, hg.1], fun ha => by simp [assignable, E.inner] at ha⟩
+        · cases h
   | cond c x y =>
     refine ⟨?_, by simp [assignable, E.inner]⟩
     simp only [descend] at h
